@@ -324,8 +324,9 @@ def showScore : Score → String
 def shrinkRat (q : Rat) : Rat :=
   if q.num.natAbs.log2 < 400 && q.den.log2 < 400 then q
   else
-    let shift := q.den.log2 + 160
-    mkRat ((q.num * (2 : Int) ^ shift) / (q.den : Int)) (2 ^ shift)
+    let k : Int := 160 + (q.den.log2 : Int) - (q.num.natAbs.log2 : Int)
+    if k ≥ 0 then mkRat ((q.num * (2 : Int) ^ k.toNat) / (q.den : Int)) (2 ^ k.toNat)
+    else ((q.num / ((q.den : Int) * (2 : Int) ^ (-k).toNat)) * (2 : Int) ^ (-k).toNat : Int)
 
 def showR (q : Rat) : String := showRat (shrinkRat q)
 
@@ -351,6 +352,20 @@ def showDwells (d : List (Int × List (Nat × Nat))) : String :=
 def showCounts (d : List (Int × List (Nat × Nat))) : String :=
   showList (fun (e : Int × List (Nat × Nat)) =>
     toString e.1 ++ "=" ++ "|".intercalate ((dwellCounts e.2).map toString)) d
+
+/-- a state label; `nan` is not a label -/
+def label? (s : String) : Option (Option Int) :=
+  if s == "nan" then some none else (int? s).map some
+
+/-- `assert np.all(np.isfinite(statepath))`, then the extraction. -/
+def dwellsChecked (path : List (Option Int)) (exclude : Bool) :
+    Except String (List (Int × List (Nat × Nat))) :=
+  match path.mapM id with
+  | none => .error "Error:AssertionError"
+  | some p =>
+    match dwells p exclude with
+    | some d => .ok d
+    | none => .error "IndexError"
 
 def guess? : List String → Option Guess
   | ["none"] => some .none
@@ -397,17 +412,17 @@ def handle : List String → Option String
             ++ showListList showR (updA K r.gammas r.xis) ++ " " ++ showList showR (updMean K r.gammas data)
             ++ " " ++ showList showR (updVar K r.gammas data))
   | ["c16.dwell", path, ex] => do
-    let path ← intList? path
+    let path ← listOf? label? path
     let ex ← bool? ex
-    match dwells path ex with
-    | some d => some (showDwells d)
-    | none => some "IndexError"
+    match dwellsChecked path ex with
+    | .ok d => some (showDwells d)
+    | .error e => some e
   | ["c16.dwellc", path, ex] => do
-    let path ← intList? path
+    let path ← listOf? label? path
     let ex ← bool? ex
-    match dwells path ex with
-    | some d => some (showCounts d)
-    | none => some "IndexError"
+    match dwellsChecked path ex with
+    | .ok d => some (showCounts d)
+    | .error e => some e
   | "c16.init" :: n :: g => do
     let n ← nat? n
     let g ← guess? g
